@@ -79,21 +79,41 @@ def find_grad_validators(index) -> dict:
 
 
 def find_leaf_discovery(index):
-    """The function that maps tensors to the leaves of their autograd graphs, found by what it does: it reads `.grad_fn` of its
-    arguments and returns the `.variable` of graph nodes (directly or through helpers of its module)."""
+    """The function that maps tensors to the leaves of their autograd graphs, found by what it does: it (or the helpers it
+    calls) walks `next_functions`; among the functions doing so, the outermost one — the one no other of them calls."""
     import ast
 
-    def attrs(fi):
-        return {n.attr for n in ast.walk(fi.node) if isinstance(n, ast.Attribute)}
+    from .index import FunctionInfo
 
-    cands = []
-    for fi in index.all_functions("torchjd.autojac"):
-        if fi.parent is not None or fi.cls is not None:
-            continue
-        a = attrs(fi)
-        if "grad_fn" in a and "variable" in a and len(fi.node.args.args) >= 1:
-            cands.append(fi)
-    return cands[0].qualname if len(cands) == 1 else None
+    def words(fi):
+        return {n.attr for n in ast.walk(fi.node) if isinstance(n, ast.Attribute)} | {n.value for n in ast.walk(fi.node) if isinstance(n, ast.Constant) and isinstance(n.value, str)}
+
+    def callees(fi):
+        out = []
+        for n in ast.walk(fi.node):
+            if isinstance(n, ast.Call) and isinstance(n.func, ast.Name):
+                c = index.resolve_name(fi.module, n.func.id)
+                if isinstance(c, FunctionInfo) and c.cls is None and c.parent is None:
+                    out.append(c)
+        return out
+
+    fns = [fi for fi in index.all_functions("torchjd.autojac") if fi.parent is None and fi.cls is None]
+    closure = {}
+    for fi in fns:
+        seen, work, acc = {fi.qualname}, [fi], set()
+        while work:
+            f = work.pop()
+            acc |= words(f)
+            for c in callees(f):
+                if c.qualname not in seen and len(seen) < 12:
+                    seen.add(c.qualname)
+                    work.append(c)
+        closure[fi.qualname] = (acc, seen - {fi.qualname})
+    need = {"next_functions", "grad_fn", "variable"}
+    walkers = {fi.qualname: fi for fi in fns if need <= closure[fi.qualname][0]}
+    # the innermost function that does all of it: none of the functions it calls does
+    minimal = [fi for q, fi in walkers.items() if not (closure[q][1] & set(walkers)) and fi.name not in ("backward", "mtl_backward")]
+    return minimal[0].qualname if len(minimal) == 1 else None
 
 
 def flag(name):
